@@ -37,7 +37,8 @@
       these messages, each once, each well formed on the clamped channel, bank select before the program change (MIDI:
       a bank select takes effect with the next program change).  The RPN part is documented but commented out in the
       code and absent from the package's own test: it is OPTIONAL here (if present it must be a correct P1 sequence
-      writing MSB 2 to RPN 0,0) -- see observations.
+      writing MSB 2 to RPN 0,0) -- see observations.  gm.Reset(ch, prog) documents the same list with bank 0;
+      gm.GMProgram(ch, prog) is exactly bank select 0 followed by the program change.
 
    P3 (controller constants of cc.go): every named constant has the controller number of the MIDI 1.0 controller table;
       LSB = MSB + 32; channel mode messages are 120..127.
@@ -147,6 +148,10 @@ ResetChannelOk(ch, bank, prog, s) ==
            IN /\ Len(r.w) \in {1, 2} /\ r.w[1] = [t |-> t00, op |-> "msb", v |-> 2]
               /\ (Len(r.w) = 2 => r.w[2].t = t00 /\ r.w[2].op = "lsb")
               /\ FinalOk("rpn", 0, 0, "entry", r.rx)
+
+\* gm.GMProgram(ch, prog), documented "GM bank select control change message followed by a program change";
+\* gm.Reset(ch, prog) documents the ResetChannel list with bank 0
+GMProgramOk(ch, prog, s) == s = <<CCMsg(Ch(ch), 0, 0), <<192 + Ch(ch), C7(prog)>>>>
 
 \* ---- P3: MIDI 1.0 controller numbers under the names cc.go gives them --------------------------------------
 CCTable == [
